@@ -22,23 +22,42 @@ import c05_sweep
 
 THEOREMS = []     # filled below, after the definitions (kept in one place)
 TRUSTED = [
-    'hand-written model coq/C05/Model.v (modelled, tied by execution only)',
-    'surfaces are abstract in the model: the law sense (tr_surf t s) p = '
-    'sense s (inv t p) is a Section hypothesis of the theorems (numeric '
-    'content: C04); the tie observes which transformation was applied to '
-    'which surface on planes, numerically (1e-9)',
-    'dic_surf_t4 entries of generated surfaces, Progress output: not modelled',
+    'hand-written model coq/C05/Model.v: tied by execution to the code '
+    '(tie:fill, tie:fill_kw, tie:cell_kw), not derived from it',
+    'the generic theorems keep the interface law sense (tr_surf t s) p = '
+    'sense s (inv t p) and the cache-key law as hypotheses; the *_linked '
+    'theorems discharge both with C04 (LinkC04.v: motions with exactly '
+    'orthonormal rows, dictionary entries of the kinds C04 covers; '
+    'LinkC04C06.v: the same for the lattice chain), so what is trusted '
+    'there is C04\'s model of transformation() and its own ties; the tie '
+    'of C05 observes which transformation reached which surface on planes '
+    '(1e-9)',
+    'develop_lattice: C06\'s model and ties (elements), composed here '
+    'through C06.LinkC05.develop_state; hexagonal base vectors: C07',
+    'C05_precedence_located_linked: norm = token image of C04\'s '
+    'parse_fill_tr and never empty (hypotheses of that theorem)',
+    'dic_surf_t4 entries of generated surfaces, Progress output, '
+    'pot_complement / pot_convert (conversion of the generated cells): '
+    'not modelled here (sweep only; C11, C01, C13)',
     'harness: generators, mcnpref / t4eval oracles, impl.T4File reader, '
     'PEG shim replacing TatSu',
 ]
 ASSUMPTIONS = [
-    'the counters start above every existing key (construct_volume_t4 '
-    'guarantees it); cell references are acyclic and no universe fills '
-    'itself (otherwise Python raises RecursionError = the model\'s EFuel)',
-    'C05_pot_fill_*: every universe is a partition (universe_partition), '
-    'original cells carry an empty idorigin, the deck is closed (every '
-    'referenced surface / cell exists)',
-    'fillid is an integer here: lattices (LatticeSpec) belong to C06',
+    'theorem hypotheses on the parsed table: counters above every key, '
+    'empty caches, no duplicate key, no CellRef and no provenance yet '
+    '(what ParseMCNPCell / construct_volume_t4 produce); results are '
+    'about calls that return Ok (a cyclic reference or self-filling '
+    'universe is RecursionError = the model\'s EFuel)',
+    '"the cells of the other descents are false" needs every universe to '
+    'be a partition (universe_partition / universe_partitionW); no '
+    'totality or acyclicity hypothesis is used',
+    'a negative literal is "not positive": differs from C04\'s strict '
+    'negative side only at points lying on a surface part',
+    'linked statements say something about the converter only for '
+    'transformations with exactly orthonormal rows (C04\'s law); '
+    'near-orthonormal input normalised by adjust_matrix is outside',
+    'LAT: one or several lattice cells developed before the FILL loop; '
+    'the per-element description is stated for one lattice cell',
 ]
 HEADER = ('From Coq Require Import List ZArith Bool.\n'
           'From T4V Require Import C05.Model C05.Exec.\n'
@@ -67,7 +86,8 @@ THEOREMS = ['C05_pot_transform_compl_untouched', 'C05_pot_transform_den',
             'C05_generated_keeps_importance', 'C05_lattice_laws_linked',
             'C05_pipeline_with_lattices_linked2',
             'C05_pipeline_with_lattice_linked2',
-            'C05_lattice_elements_accepted_linked']
+            'C05_lattice_elements_accepted_linked',
+            'C05_located_through_lattice_linked2']
 
 
 def tie_case_summary(case):
